@@ -326,11 +326,29 @@ def shrink(par, stream, pts, fails):
     return pts
 
 
-def evaluate(run, proto, cs, model, drv, stats):
+def evaluate(run, proto, cs, model, drv, stats, drv_san=None):
     cmd = cs.cmd
     lines, idx = cs.lines()
     om = stream_util.run_cases(model, lines)
     oc = stream_util.run_cases(drv, lines)
+    if drv_san:
+        # sanitizer build (ASan + UBSan incl. array bounds) of library and driver: same cases, the
+        # results must be those of the plain build and nothing may be reported
+        osan = stream_util.run_cases(drv_san, lines, timeout=300, per_case_timeout=30,
+                                     env={"ASAN_OPTIONS": "detect_leaks=0:abort_on_error=1",
+                                          "UBSAN_OPTIONS": "halt_on_error=1"})
+        nsan = 0
+        for i, (a, b) in enumerate(zip(oc, osan)):
+            if b == "<not run>" or oracle_view(a) == oracle_view(b):
+                continue
+            nsan += 1
+            if nsan <= 2:
+                run.violation("sanitizer build of the %s receive path differs from the plain build or reports an "
+                              "error: %s" % (proto, b[:120]),
+                              "case: %s\nplain build: %s\nsanitizer build: %s\n" % (lines[i], a, b),
+                              tag="%ssan%d" % (proto, nsan))
+        stats["san_cases"] = stats.get("san_cases", 0) + len(lines)
+        stats["san_diffs"] = stats.get("san_diffs", 0) + nsan
     what_fn = "coap_read_session" if proto == "tcp" else "coap_ws_read / coap_read_session"
     bad = [i for i, o in enumerate(oc) if o == "HANG" or o.startswith("CRASH")]
     stats["crashes"] += len(bad)
@@ -490,6 +508,8 @@ def main(run):
     run.prove()
     model = vlib.build_model()
     drv = vlib.build_driver("h_stream", ["h_stream.c"], wraps=WRAPS)
+    drv_san = vlib.build_driver("h_stream", ["h_stream.c"], variant="asan", wraps=WRAPS) \
+        if run.tier == "thorough" else None
     r = tie.rng_for(run, "c05")
     replay = getattr(run, "replay", None)
     if not replay:
@@ -507,7 +527,7 @@ def main(run):
         if not replay:
             cs.groups.extend(build(run, r).groups)
         if cs.groups:
-            ngroups += evaluate(run, proto, cs, model, drv, stats)
+            ngroups += evaluate(run, proto, cs, model, drv, stats, drv_san)
     stream_util.cleanup_sockets()
     run.cov["driver_crashes"] = stats["crashes"]
     run.cov["oracle_failures"] = stats["oracle"]
@@ -515,5 +535,7 @@ def main(run):
     run.cov["tie_compared"] = stats["tie"]
     run.cov["tie_disagreements"] = stats["tie_bad"]
     run.cov["tie_not_predicted"] = stats["tie_skipped"]
+    run.cov["sanitizer_cases"] = stats.get("san_cases", 0)
+    run.cov["sanitizer_differences"] = stats.get("san_diffs", 0)
     run.cov["corpus_cases"] = ncorpus
     run.cov["stream_groups"] = ngroups
